@@ -169,6 +169,24 @@ static bool asReal(QNumberType t, const QNumber64 &n, double &out) {
     }
 }
 
+// the same text embedded in a longer buffer (followed by a JSON delimiter), read through the offset overload:
+// kind, payload and consumed length must be those of the exact-length read
+static bool embeddedAgrees(const char *text, size_t len, QNumberType kind, const QNumber64 &n) {
+    static const char followers[] = {']', ',', '}', ' '};
+    for (char f : followers) {
+        char *buf = static_cast<char *>(malloc(len + 2));
+        buf[0] = '[';
+        memcpy(buf + 1, text, len);
+        buf[len + 1] = f;
+        QNumber64 m;
+        SizeT     off = 1;
+        const QNumberType k2 = Digit::StringToNumber(m, static_cast<const char *>(buf), off, SizeT(len + 2));
+        free(buf);
+        if (k2 != kind || off != SizeT(len + 1) || m.Natural != n.Natural) return false;
+    }
+    return true;
+}
+
 static bool rtDouble(uint64_t bits, uint64_t &out_bits, QNumberType &kind, std::string *text) {
     StringStream<char> ss;
     Digit::NumberToString(ss, dbl(bits), Digit::RealFormatInfo{17U});
@@ -178,10 +196,12 @@ static bool rtDouble(uint64_t bits, uint64_t &out_bits, QNumberType &kind, std::
     QNumber64 n;
     kind = Digit::StringToNumber(n, buf, SizeT(ss.Length()));
     if (text) *text = std::string(buf, ss.Length());
+    const bool emb = embeddedAgrees(buf, ss.Length(), kind, n);
     free(buf);
     double r;
     if (!asReal(kind, n, r)) { out_bits = 0; return false; }
     out_bits = dbits(r);
+    if (!emb) { if (text) *text += " (embedded read differs)"; return false; }
     return out_bits == bits;
 }
 
@@ -193,10 +213,12 @@ static bool rtFloat(uint32_t bits, uint32_t &out_bits, QNumberType &kind, std::s
     QNumber64 n;
     kind = Digit::StringToNumber(n, buf, SizeT(ss.Length()));
     if (text) *text = std::string(buf, ss.Length());
+    const bool emb = embeddedAgrees(buf, ss.Length(), kind, n);
     free(buf);
     double r;
     if (!asReal(kind, n, r)) { out_bits = 0; return false; }
     out_bits = fbits(float(r));
+    if (!emb) { if (text) *text += " (embedded read differs)"; return false; }
     return out_bits == bits;
 }
 
